@@ -8,6 +8,7 @@ import (
 	"sort"
 	"strconv"
 	"strings"
+	"verifshim/vsync"
 
 	bip39 "github.com/islishude/bip39"
 	"verifshim/vsched"
@@ -23,9 +24,10 @@ func init() { subcommands["schedx"] = schedxMain }
 // is checked after every restore by comparing the deep fingerprint with the
 // one of the untouched process (resetOK).
 type stateSnapshot struct {
-	vars  map[string]interface{}
-	saved map[string]reflect.Value
-	fp0   string
+	vars    map[string]interface{}
+	saved   map[string]reflect.Value
+	fp0     string
+	nHidden int // OnceFunc / OnceValue objects that existed when the snapshot was taken
 }
 
 func takeSnapshot() *stateSnapshot {
@@ -36,6 +38,7 @@ func takeSnapshot() *stateSnapshot {
 		c.Set(v)
 		s.saved[n] = c
 	}
+	s.nHidden = len(vsync.Hidden())
 	s.fp0, _, _ = fingerprint()
 	return s
 }
@@ -44,6 +47,7 @@ func (s *stateSnapshot) restore() bool {
 	for n, p := range s.vars {
 		reflect.ValueOf(p).Elem().Set(s.saved[n])
 	}
+	vsync.ResetHidden(s.nHidden)
 	fp, _, _ := fingerprint()
 	return fp == s.fp0
 }
@@ -157,7 +161,11 @@ func schedxMain(args []string) int {
 			out.Interleaved++
 		}
 		if r.Diverged != "" {
+			// in one process a divergence means that the reset did not give back a cold state; the
+			// driver repeats the scenario with one fresh process per execution (where a divergence
+			// is a hard error)
 			out.Diverged = fmt.Sprintf("[%s]: %s", joinInts(prefix), r.Diverged)
+			out.ResetFailed = true
 			break
 		}
 		choices := make([]int, len(r.Points))
@@ -235,6 +243,17 @@ func schedxMain(args []string) int {
 			out.Aborted = "package state could not be restored to its initial fingerprint (state reachable only through pointers was modified)"
 			break
 		}
+		if out.Executions == 1 {
+			// cold check: the default schedule, run once more after the reset, must show exactly the
+			// same scheduling points and results; if not, the package keeps state the reset cannot
+			// reach (closures, state behind func values) and later executions would not start cold
+			r2, res2, _ := runOne(nil)
+			if sigOf(r2) != sigOf(r) || fmt.Sprint(res2) != fmt.Sprint(res) || !snap.restore() {
+				out.ResetFailed = true
+				out.Aborted = "the default schedule does not repeat after a state reset: state outside the package-level variables"
+				break
+			}
+		}
 	}
 	for o := range outcomes {
 		out.Outcomes = append(out.Outcomes, clipStr(o))
@@ -243,6 +262,15 @@ func schedxMain(args []string) int {
 	data, _ := json.Marshal(&out)
 	emitResult(data)
 	return 0
+}
+
+// sigOf is the sequence of scheduling points of one execution (who was enabled, where).
+func sigOf(r *vsched.Result) string {
+	var b strings.Builder
+	for _, p := range r.Points {
+		fmt.Fprintf(&b, "%v@%s;", p.Enabled, p.What)
+	}
+	return b.String() + r.Deadlock
 }
 
 func joinInts(c []int) string {
